@@ -182,3 +182,39 @@ Proof.
   intros Hinv Hadd. destruct (fb_add_inv f syms seq16 t f' Hinv Hadd) as (Hinv' & Hw & _ & _).
   rewrite <- (fi_last _ _ Hinv'). exact Hw.
 Qed.
+
+(* ---- decoded times of all packets of a feedback ---- *)
+(* what a receiver computes: running sums of the deltas from the reference time *)
+Fixpoint psums (T : Z) (ds : list Z) : list Z :=
+  match ds with [] => [] | d :: tl => (T + d) :: psums (T + d) tl end.
+
+Lemma psums_app T a b : psums T (a ++ b) = psums T a ++ psums (T + sumZ a) b.
+Proof.
+  revert T; induction a as [|d tl IH]; intros T; cbn [app psums sumZ].
+  - f_equal. lia.
+  - rewrite IH. replace (T + (d + sumZ tl)) with (T + d + sumZ tl) by lia. reflexivity.
+Qed.
+
+(* ts = the arrival times of the packets added so far, in order: each decoded
+   time is within 125 us of the corresponding arrival time *)
+Definition times_ok (f : feedback) (ts : list Z) : Prop :=
+  Forall2 (fun t T => Z.abs (t - T) <= 125) ts (psums (f_ref f * 64000) (map snd (f_deltas f))).
+
+Lemma times_ok_new b t : times_ok (fb_new b t) [].
+Proof. unfold times_ok, fb_new. cbn. constructor. Qed.
+
+Lemma add_times f syms ts seq16 t f' :
+  fb_inv f syms -> times_ok f ts -> fb_add_received f seq16 t = Some f' -> times_ok f' (ts ++ [t]).
+Proof.
+  intros Hinv Hts Hadd.
+  destruct (fb_add_inv f syms seq16 t f' Hinv Hadd) as (Hinv' & Hw & _ & Href).
+  pose proof (fi_last _ _ Hinv') as Hlast'.
+  assert (Hd : exists d, f_deltas f' = f_deltas f ++ [d]).
+  { unfold fb_add_received in Hadd. destruct (_ || _); [discriminate|].
+    pose proof (fb_fill_fields (Z.to_nat (sub16 seq16 (f_next f))) f) as (_ & _ & _ & _ & Fd).
+    destruct (push_sym _ _). inversion Hadd; subst f'. cbn [f_deltas]. rewrite Fd. eexists; reflexivity. }
+  destruct Hd as (d & Hd). unfold times_ok in *. rewrite Hd, map_app, psums_app, Href. cbn [map psums].
+  apply Forall2_app; [exact Hts|]. constructor; [|constructor].
+  rewrite Hd, map_app, sumZ_app, Href in Hlast'. cbn [map sumZ] in Hlast'.
+  replace (f_ref f * 64000 + sumZ (map snd (f_deltas f)) + snd d) with (f_last f') by lia. exact Hw.
+Qed.
